@@ -13,12 +13,16 @@ import Driver.SnapshotOps
 import Driver.JsonOps
 import Driver.CommitOps
 import Driver.SchedOps
+import Driver.ManifestOpsOps
+import Driver.PartitionOps
 open Lean Ts.Drv
 
 namespace Ts.Drv
 
 /-- All registered op handlers; first match wins. -/
 def handlers : List Handler := [
+  PartitionOps.handle,
+  ManifestOpsOps.handle,
   SchedOps.handle,
   CommitOps.handle,
   JsonOps.handle,
